@@ -31,7 +31,7 @@ REQUIRED_NONZERO = {"*": ["faults_fired.cb_raise", "faults_fired.force_unsat", "
 def budget(tier):
     if tier == "thorough":
         return {"runs": 1200, "wall": 3000}
-    return {"runs": 128, "wall": 900}
+    return {"runs": 192, "wall": 900}
 
 
 def generate(seed, tier):
@@ -39,6 +39,31 @@ def generate(seed, tier):
     prog, g = scen.tree_program(st, feats={"cb": True, "depth": st.prog.choice([1, 2, 2])})
     top = prog["top"]
     P = refsem.Prog(prog)
+    # a dynamic block (its body is user code run at construction) and soft constraints
+    # (priorities are per-call state) in the top class
+    tcls = P.cls(top)
+    own0 = progs.fields_with_paths(tcls)[0]
+    gp = progs.Gen(st.prog, dict(g.cfg, soft=True))
+    if own0:
+        if st.prog.random() < 0.6:
+            tcls["blocks"].append({"n": "dyn0", "dyn": True,
+                                   "stmts": progs.strip([gp.stmt(own0, 1, kinds=["expr", "in", "if"], nest=1)
+                                                         for _ in range(st.prog.randint(1, 2))])})
+        soft_f = None
+        if st.prog.random() < 0.6:
+            if st.prog.random() < 0.6:
+                # mutually conflicting softs on one field: the winner is decided by priority only
+                soft_f = st.prog.choice([f for f in own0 if f.get("r")] or own0)
+                dom = list(refsem.field_domain(P, soft_f))
+                tcls["blocks"].append({"n": "zsoft", "stmts": [
+                    {"t": "soft", "e": progs.BIN("==", progs.F(soft_f["n"]), progs.LIT(st.prog.choice(dom)))}
+                    for _ in range(st.prog.randint(2, 3))]})
+            else:
+                tcls["blocks"].append({"n": "zsoft", "stmts": progs.strip(
+                    [{"t": "soft", "e": gp.bool_expr(own0, 1)} for _ in range(st.prog.randint(2, 3))])})
+    else:
+        soft_f = None
+    has_dyn = any(b.get("dyn") for b in tcls["blocks"])
     rng = st.ops
     n_parties = rng.choice([1, 2, 2, 3])
     ops = []
@@ -55,8 +80,15 @@ def generate(seed, tier):
         if r < 0.45:
             ops.append({"op": "randomize", "p": p})
         elif r < 0.75:
-            ops.append({"op": "rw", "p": p,
-                        "inline": progs.strip(gi.inline_stmts(P.cls(top), [], 1, 2))})
+            inl = progs.strip(gi.inline_stmts(P.cls(top), [], 1, 2))
+            if own0 and soft_f is not None and rng.random() < 0.6:
+                dom = list(refsem.field_domain(P, soft_f))
+                inl.append({"t": "soft", "e": progs.BIN("==", progs.F(soft_f["n"]), progs.LIT(rng.choice(dom)))})
+            elif own0 and rng.random() < 0.4:
+                inl.append(progs.strip({"t": "soft", "e": gi.bool_expr(own0, 1)}))
+            if has_dyn and rng.random() < 0.3:
+                inl.append(progs.EXPR({"t": "dynref", "n": "dyn0", "p": []}))
+            ops.append({"op": "rw", "p": p, "inline": inl})
         elif r < 0.85 and not late_done:
             ops.append({"op": "newprog", "prog": late})
             late_done = True
